@@ -1,13 +1,15 @@
-SPECIFICATION GenSpec
+SPECIFICATION CoverSpec
 CONSTANTS
   Sess <- Pair
   Role <- PairRole
   KeyOf <- PairKey
   EphOf <- PairEph
   SessIdx <- PairIdx
-  MaxForge = 4
+  MaxForge = 0
   MaxSend = 2
   Window = 1000
-  Weak = {"rhsig"}
-  MaxSteps = 14
+  Weak = {}
+  MaxSteps = 0
+VIEW view
+ACTION_CONSTRAINT EdgeDump
 CHECK_DEADLOCK FALSE
